@@ -42,7 +42,7 @@ LEVELS = {'C16': 'exploration', 'C18': 'exploration'}
 PROBES = {
     'C16': ['redirect.301', 'redirect.302', 'redirect.303', 'redirect.307', 'redirect.308', 'cross_host_redirect', 'cross_scheme_redirect',
             'repeat_redirect_cross_host', 'userinfo_url', 'idn_host', 'ipv6_host', 'ipv4_host', 'nondefault_port', 'cookie_set',
-            'cookie_sent', 'foreign_domain_cookie', 'auth_challenge', 'auth_sent', 'referer_https_to_http', 'encoded_path',
+            'cookie_sent', 'foreign_domain_cookie', 'domain_cookie_from_host_without_domain', 'auth_challenge', 'auth_sent', 'referer_https_to_http', 'encoded_path',
             'relative_location', 'keepalive_reuse', 'proxy', 'proxy_absolute_form', 'proxy_connect', 'idle_close', 'followup_visit', 'referrer_with_userinfo', 'proxy_connect_refused'],
     'C18': ['redirect_cycle', 'unbounded_chain', 'limit_reached', 'perpetual_401', 'missing_location', 'bad_location', 'max_redirect_0',
             'server_5xx', 'reset', 'stall_timeout', 'auth_retry'],
@@ -77,6 +77,10 @@ ORIGINS = [
     ('https', 'c.test', 'c.test', '10.0.2.3', 8443),
     ('http', 'd.test', 'd.test', '10.0.2.7', 443),       # an explicit port that is the OTHER web scheme's default
     ('https', 'd.test', 'd.test', '10.0.2.7', 80),
+    # hosts without a registrable domain: an address that shares its last octets with another, and two single-label names
+    ('http', '10.9.2.6', '10.9.2.6', '10.9.2.6', 80),
+    ('http', 'intranet', 'intranet', '10.0.2.8', 80),
+    ('http', 'wiki', 'wiki', '10.0.2.9', 80),
 ]
 DEFAULT_PORT = {'http': 80, 'https': 443}
 
@@ -411,7 +415,8 @@ def run(tape, prop, tier):
                     allowed = here == setter
                 else:
                     d = domain.lstrip('.')
-                    allowed = ok and (here == d or here.endswith('.' + d))
+                    # (back to the host that set it is never a leak, whatever a cookie specification says about storing it)
+                    allowed = here == setter or (ok and (here == d or here.endswith('.' + d)))
                 if not allowed:
                     r.violate('C16', 'cookie-leak', ('host-only' if domain is None else 'domain') + ':' + hop_kind,
                               'hop %d (%s): cookie %s set by %s (Domain=%r) sent to %s' % (hop, hop_kind, name, setter, domain, here))
@@ -441,6 +446,13 @@ def run(tape, prop, tier):
             elif k == 1 and origin[2].endswith('b.test'):
                 headers.append(('Set-Cookie', '%s=v%d; Domain=.b.test; Path=/' % (name, hop)))
                 h.cookies[name] = (origin[2], '.b.test', True)
+            elif k == 1 and (re.fullmatch(r'[0-9.]+', origin[2]) or '.' not in origin[2]):
+                # a Domain attribute from a host that has no domain: part of an IP address, or '.local' (the suffix older cookie
+                # specifications gave every single-label name). RFC 6265 5.3: no domain-match, the cookie is ignored.
+                dom = '.' + '.'.join(origin[2].split('.')[-2:]) if '.' in origin[2] else tape.choice(('.local', 'local'), 'setcookie.local')
+                headers.append(('Set-Cookie', '%s=v%d; Domain=%s; Path=/' % (name, hop, dom)))
+                h.cookies[name] = (origin[2], dom, False)
+                r.probes['domain_cookie_from_host_without_domain'] += 1
             elif k == 2:
                 headers.append(('Set-Cookie', '%s=v%d; Domain=.evil.test; Path=/' % (name, hop)))
                 h.cookies[name] = (origin[2], '.evil.test', False)
